@@ -116,7 +116,7 @@ class Session:
             res.interp = it
         return res
 
-    def explore(self, entry, din=(), iin=(), assumptions=(), max_paths=400, branch_timeout_ms=10000, zctx=None, ite_ints=False, on_path=None, max_steps=None, generic_position=False, branch_filter=None, sampler=None, eager_ints=False):
+    def explore(self, entry, din=(), iin=(), assumptions=(), max_paths=400, branch_timeout_ms=10000, zctx=None, ite_ints=False, on_path=None, max_steps=None, generic_position=False, branch_filter=None, sampler=None, eager_ints=False, symbolic_alloc=False):
         """symbolic exploration of all feasible paths; returns (controller, [(trace, pc, RunResult)])"""
         ctl = PathController(zctx, branch_timeout_ms, max_paths)
         ctl.ite_ints = ite_ints
@@ -124,6 +124,7 @@ class Session:
         ctl.branch_filter = branch_filter
         ctl.pool.custom = sampler
         ctl.eager_ints = eager_ints
+        ctl.symbolic_alloc = symbolic_alloc
         ctl.assumptions = list(assumptions)
         def run_path(c):
             r = self.run(entry, din, iin, pathctl=c, max_steps=max_steps)
